@@ -96,7 +96,10 @@ def to_cpp(e, bound=()):
     if k == "then": return "unifex::then(%s, %s)" % (to_cpp(e[2], bound), cpp_fn(e[1]))
     if k == "uerr": return "k2::uerr(%s, %s)" % (to_cpp(e[2], bound), cpp_fn(e[1]))
     if k == "udone": return "k2::udone(%s, %s)" % (to_cpp(e[2], bound), cpp_fn(e[1]))
-    if k == "withq": return "unifex::with_query_value(%s, k2::get_q%d, %d)" % (to_cpp(e[3], bound), e[1], e[2])
+    if k == "withq":
+        if e[2] % 3 == 0:   # a third of them: the harness look-alike whose query customisation is not noexcept
+            return "k2::withq_nt<%d>(%s, %d)" % (e[1], to_cpp(e[3], bound), e[2])
+        return "unifex::with_query_value(%s, k2::get_q%d, %d)" % (to_cpp(e[3], bound), e[1], e[2])
     if k == "unstop": return "unifex::unstoppable(%s)" % to_cpp(e[1], bound)
     if k == "mat": return "k2::mat(%s)" % to_cpp(e[1], bound)
     if k == "dopt": return "k2::dopt(%s)" % to_cpp(e[1], bound)
@@ -205,6 +208,8 @@ CORPUS = [
     ("letv", ("wall", ("leaf", 0), ("leaf", 1)), ("then", ("add", 1), ("var", 0))),
     ("unstop", ("swhen", ("leafn", 0), ("leafn", 1))),
     ("withq", 0, 7, ("wall", ("withq", 1, 9, ("leaf", 0)), ("leaf", 1))),
+    ("withq", 1, 6, ("seq", ("just", 1), ("letv", ("leaf", 0), ("fin", ("leaf", 1), ("then", ("add", 1), ("leaf", 2)))))),   # non-noexcept query through sequence/let_value/finally/then
+    ("withq", 0, 9, ("lete", ("jerr", 21), ("letd", ("jdone",), ("swhen", ("leaf", 0), ("leaf", 1))))),
 ]
 
 
